@@ -229,6 +229,16 @@ def _do(w, ev, cfg):
                         cfg['origin'] in ('watch', 'acc_xprv') and a == 0)):
                     raise _WrongAccount('%s returned a key of account %s (path %s) for requested account %d' % (
                         kind, k.account_id, k.path, a))
+        elif kind == 'path_full':
+            # the complete path as text, naming an account (which need not be the default one, nor exist yet), and no
+            # account_id argument: the key belongs to the account its path names
+            _, a, ch, idx = ev
+            _, pstr = ref_path(cfg, w.witness_type, a, ch, idx)
+            k = w.key_for_path(pstr)
+            explicit.add((w.witness_type, a, ch, idx))
+            if k.account_id != a or k.path != pstr:
+                raise _WrongAccount('key_for_path(%r) returned the key %s recorded under account %s' % (
+                    pstr, k.path, k.account_id))
         elif kind == 'new_key_otherwt':
             w.new_key(witness_type=_other_wt(cfg['wt']))
         elif kind == 'get_keys_otherwt':
@@ -427,7 +437,8 @@ def run(ctx):
         cfgs.append(c)
     add('seed', 'bitcoinlib_test', 'segwit', EV_FULL)
     ev_acc = [['new_key'], ['new_key_acc', 0], ['new_key_acc', 5], ['new_key_change_acc', 0], ['get_key_acc', 0],
-              ['get_keys_acc', 0], ['path_acc', 0, 0, 4], ['get_key'], ['new_account'], ['mark_used'], ['reopen']]
+              ['get_keys_acc', 0], ['path_acc', 0, 0, 4], ['path_full', 2, 0, 0], ['path_full', 0, 0, 2],
+              ['new_key_acc', 2], ['get_key'], ['new_account'], ['mark_used'], ['reopen']]
     cfgs.append({'origin': 'seed', 'network': 'bitcoinlib_test', 'wt': 'segwit', 'seed': seed, 'events': ev_acc,
                  'account': 5})
     add('mnemonic', 'bitcoin', 'segwit', EV_SMALL)
